@@ -188,3 +188,36 @@ harness! {
         }
     }
 }
+
+// ---------------------------------------------------------------- start-up sequence (lead)
+/// new() followed by take_control() with an arbitrary kernel-reported frequency: whatever is
+/// applied to the clock during start-up lies within +-maximum_frequency_steer (on the current code
+/// nothing is applied at all before the first steering decision).
+harness! {
+    fn c02_startup() {
+        use ntp_proto::verif::algorithm::InternalTimeSyncController;
+        let f0 = any_finite();
+        let max = any_pos_finite();
+        unsafe {
+            CLOCK_FREQ = f0;
+        }
+        let algo = AlgorithmConfig { maximum_frequency_steer: max, ..AlgorithmConfig::default() };
+        arm_freq_policy(max);
+        let mut c = match ntp_proto::KalmanClockController::new(RecClock, ntp_proto::SynchronizationConfig::default(), algo) {
+            Ok(c) => c,
+            Err(_) => return,
+        };
+        let _ = c.take_control();
+        unsafe {
+            let mut i = 0;
+            while i < FREQ_N && i < 2 {
+                assert!(FREQ_X[i] >= -max && FREQ_X[i] <= max, "frequency applied during start-up within +-maximum_frequency_steer");
+                i += 1;
+            }
+            assert!(STEP_N == 0, "start-up never steps the clock");
+            assert!(kh::controller_freq_offset(&c) == f0 || f0.is_nan(), "the kernel frequency is remembered as reported");
+            kani::cover!(f0 > max, "kernel frequency above the configured maximum");
+            kani::cover!(DISABLE_N == 1, "kernel discipline disabled by take_control");
+        }
+    }
+}
